@@ -387,9 +387,9 @@ func c11UpFirst(s string) string {
 }
 
 type c11Namer struct {
-	r     *Rng
-	used  map[string]bool
-	shape func() int
+	r         *Rng
+	used      map[string]bool
+	typeNames bool // names of types: no SCREAMING_CAPS
 }
 
 func c11NewNamer(r *Rng) *c11Namer { return &c11Namer{r: r, used: map[string]bool{}} }
@@ -445,6 +445,15 @@ func (n *c11Namer) fresh() string {
 		}
 		c := c11Canon(s)
 		if c == "" || n.used[c] || c11HasKeywordPrefix(s) || c11HasKeywordPrefix(strings.ToLower(s)) {
+			continue
+		}
+		// excluded: go-new-args-result-names — the Go generator appends `_` to names that start with
+		// New or end in Args/Result in some places and not in others
+		if strings.HasPrefix(c, "new") || strings.HasSuffix(c, "args") || strings.HasSuffix(c, "result") {
+			continue
+		}
+		// excluded: go-screaming-caps-type-name — declared as written, referenced in camel case
+		if n.typeNames && shape == "SCREAM" {
 			continue
 		}
 		n.used[c] = true
@@ -519,9 +528,11 @@ func (c *c11FileCtx) resolve(t *c11GTy) (*c11GTy, *c11FileCtx, *c11Sym) {
 	return cur, ctx, nil
 }
 
+// isEnumTy: t resolves to a declared (enum / struct / union / exception) type.
+// excluded: typedef-of-enum (Java, Python generators panic), go-typedef-of-struct (Go output has no methods)
 func (c *c11FileCtx) isEnumTy(t *c11GTy) bool {
 	_, _, s := c.resolve(t)
-	return s != nil && s.kind == c11SymEnum
+	return s != nil
 }
 
 var c11BaseNames = []string{"bool", "byte", "i16", "i32", "i64", "double", "string", "binary"}
@@ -730,7 +741,8 @@ func (g *c11ProgGen) value(c *c11FileCtx, t *c11GTy, depth int) string {
 			}
 			parts := []string{}
 			for _, f := range s.st.fields {
-				if !r.Chance(60) {
+				// excluded: go-struct-constant-optional-field (pointer field initialised with a value)
+				if !r.Chance(60) || f.mod == "optional" {
 					continue
 				}
 				fu, _, fs := uc.resolve(f.t)
@@ -845,6 +857,7 @@ func (g *c11ProgGen) genFile(idx int, name string, incs []*c11FileCtx) *c11FileC
 	r := g.r
 	f := &c11GFile{name: name}
 	c := &c11FileCtx{f: f, syms: map[string]*c11Sym{}, incs: map[string]*c11FileCtx{}, names: c11NewNamer(r)}
+	c.names.typeNames = true
 	for _, ic := range incs {
 		f.includes = append(f.includes, ic.f.name+".frugal")
 		c.incs[ic.f.name] = ic
@@ -996,12 +1009,17 @@ func (g *c11ProgGen) genFile(idx int, name string, incs []*c11FileCtx) *c11FileC
 		// extends: an earlier local service or a service of a direct include
 		if r.Chance(50) {
 			cands := []string{}
+			// excluded: go-extends-service-name-case — the parent is referenced as F<name as written>Client
 			for _, o := range f.services {
-				cands = append(cands, o.name)
+				if c11GoStable(o.name) {
+					cands = append(cands, o.name)
+				}
 			}
 			for _, ic := range incs {
 				for _, o := range ic.f.services {
-					cands = append(cands, ic.f.name+"."+o.name)
+					if c11GoStable(o.name) {
+						cands = append(cands, ic.f.name+"."+o.name)
+					}
 				}
 			}
 			if len(cands) > 0 {
@@ -1013,7 +1031,10 @@ func (g *c11ProgGen) genFile(idx int, name string, incs []*c11FileCtx) *c11FileC
 			}
 		}
 		mn := c11NewNamer(r)
-		nm := r.Intn(5)
+		nm := 1 + r.Intn(4)
+		if r.Chance(6) {
+			nm = 0
+		}
 		if nm == 0 {
 			g.feat["empty-service"] = true
 		}
@@ -1029,8 +1050,14 @@ func (g *c11ProgGen) genFile(idx int, name string, incs []*c11FileCtx) *c11FileC
 				if len(excs) > 0 && r.Chance(40) {
 					ne := 1 + r.Intn(2)
 					en := c11NewNamer(r)
+					usedExc := map[string]bool{}
 					for k := 0; k < ne; k++ {
 						e := excs[r.Intn(len(excs))]
+						// excluded: go-duplicate-exception-type (duplicate case in the generated type switch)
+						if usedExc[e.name] {
+							continue
+						}
+						usedExc[e.name] = true
 						m.excs = append(m.excs, &c11GField{id: k + 1, name: en.fresh(), t: &c11GTy{name: e.name}})
 					}
 				}
@@ -1094,6 +1121,16 @@ func c11PrefixVar(r *Rng, n *c11Namer) string {
 		n.used[c11Canon(w)] = true
 		return w
 	}
+}
+
+var c11Initialisms = map[string]bool{"API": true, "ASCII": true, "CPU": true, "CSS": true, "DNS": true, "EOF": true, "GUID": true,
+	"HTML": true, "HTTP": true, "HTTPS": true, "ID": true, "IP": true, "JSON": true, "LHS": true, "QPS": true, "RAM": true, "RHS": true,
+	"RPC": true, "SLA": true, "SMTP": true, "SSH": true, "TLS": true, "TTL": true, "UI": true, "UID": true, "UUID": true, "URI": true,
+	"URL": true, "UTF8": true, "VM": true, "XML": true}
+
+// c11GoStable: snakeToCamel leaves the name as written.
+func c11GoStable(n string) bool {
+	return n != "" && !strings.Contains(n, "_") && n[0] >= 'A' && n[0] <= 'Z' && !c11Initialisms[strings.ToUpper(n)]
 }
 
 var c11FileNames = []string{"base", "common_types", "shared2", "util", "models_v1", "core", "extra_defs", "lib9"}
@@ -1436,10 +1473,10 @@ func c11ArbitraryText(r *Rng) string {
 		return strings.Join(parts, "")
 	case 2:
 		// deep nesting: parser recursion depth
-		d := 50 + r.Intn(3000)
+		d := 20 + r.Intn(180)
 		return "struct S { 1: " + strings.Repeat("list<", d) + "i32" + strings.Repeat(">", d) + " x }\n"
 	default:
-		d := 50 + r.Intn(2000)
+		d := 20 + r.Intn(180)
 		return "const list<i32> c = " + strings.Repeat("[", d) + strings.Repeat("]", d) + "\n"
 	}
 }
